@@ -116,7 +116,7 @@ def gen_idstr(r, width):
 def run(v, tier, seed, replay):
     lean = C.lean_check(["C12"], tier)
     ok, err = C.cargo_build("fh-core", ["fh-codec"])
-    n = 4000 if tier == "quick" else 300000
+    n = 12000 if tier == "quick" else 300000
     r = C.Rng(seed * 1000003 + 12)
     lines, expect = [], []
     # corpus first: past/handwritten edge cases
